@@ -17,7 +17,7 @@ INV = os.path.join(HERE, "site_inventory.json")
 
 FILES = ["src/unsync/cache.rs", "src/unsync/deques.rs", "src/unsync.rs", "src/unsync/iter.rs",
          "src/unsync/builder.rs", "src/sync/cache.rs", "src/sync/base_cache.rs", "src/sync/iter.rs",
-         "src/sync/builder.rs", "src/common/deque.rs", "src/common/frequency_sketch.rs",
+         "src/sync/mapref.rs", "src/sync/builder.rs", "src/common/deque.rs", "src/common/frequency_sketch.rs",
          "src/common/concurrent/deques.rs", "src/common/concurrent/housekeeper.rs",
          "src/common/concurrent/entry_info.rs", "src/common/concurrent/atomic_time.rs",
          "src/common/concurrent.rs", "src/common.rs", "src/common/builder_utils.rs", "src/policy.rs",
@@ -35,6 +35,9 @@ KINDS = {
     "lock": r"\.lock\(\)|\.read\(\)|\.write\(\)|compare_exchange\s*\(",
     "deque_op": r"\.\s*(push_back|pop_front|move_to_back|move_front_to_back|unlink|unlink_and_drop|push_back_ao|push_back_wo|move_to_back_ao|move_to_back_wo|unlink_ao|unlink_wo|unlink_ao_from_deque|move_to_back_ao_in_deque|move_to_back_wo_in_deque|unlink_node_ao|unlink_node_wo)\s*\(|Deques::\w+\s*\(",
     "sketch_op": r"\.\s*(increment|frequency|ensure_capacity|reset)\s*\(",
+    # shape of the iterators: adapters that skip, cut or re-position an iteration, and the calls
+    # that hand out the underlying map iterator (ConcSI models one pass over every shard)
+    "iter_shape": r"\.\s*(skip|take|step_by|skip_while|take_while|nth|rev|filter|filter_map|peekable|chain|collect|cloned)\s*\(|\.\s*iter\s*\(\)|\bnext\s*\(",
     "time_check": r"\bis_expired_entry(_ao|_wo)?\s*\(|checked_add\s*\(|<=\s*now|<\s*\*va",
 }
 
@@ -54,6 +57,7 @@ ORDER_RX = re.compile(
 # source order per function. The models transcribe these functions statement by statement and
 # treat each as atomic at a chosen granularity; under threads the ORDER of, say, "look the entry
 # up" and "clear the dirty flag" is behaviour, although no single-threaded run can tell.
+ITER_FILES = ("src/sync/iter.rs", "src/unsync/iter.rs", "src/sync/mapref.rs")
 OP_ORDER_FILES = ("src/sync/base_cache.rs", "src/sync/cache.rs", "src/common/concurrent/housekeeper.rs")
 OP_ORDER_RX = re.compile(
     r"\.(get|get_mut|insert|entry|remove|remove_if|and_modify|or_insert_with)\s*\(|"
@@ -113,6 +117,8 @@ def inventory():
             if m:
                 fn = m.group(1)
             for kind, rx in KINDS.items():
+                if kind == "iter_shape" and not (rel in ITER_FILES or fn in ("iter", "into_iter")):
+                    continue
                 c = len(re.findall(rx, line))
                 if c:
                     key = f"{rel}|{fn}|{kind}"
